@@ -371,31 +371,37 @@ fn run_one(desc: &Value, out: &mut impl Write) {
     let order: Vec<usize> = desc["order"].as_array().map(|a| a.iter().map(|k| k.as_u64().unwrap() as usize).collect()).unwrap_or_else(|| (1..=blocks.len()).collect());
     let (outcome, msg, end, steps, exited);
     match runner.as_str() {
-        "graph" => {
-            let mut g = Graph::new();
-            for b in &order {
-                g.add(blocks[b - 1].take().unwrap());
+        "graph" | "mt" => {
+            // Run on OS threads under a wall-clock watchdog: a run that is still going after
+            // `wall_s` seconds (tiny graphs take milliseconds) is reported as not terminating
+            // and its threads are left behind.
+            let (tx, rx) = std::sync::mpsc::channel();
+            let is_st = runner == "graph";
+            let order2 = order.clone();
+            let mut blocks2 = std::mem::take(&mut blocks);
+            std::thread::spawn(move || {
+                // the graph is built in the thread that runs it (Graph is not Send)
+                let mut g: Box<dyn GraphRunner> = if is_st { Box::new(Graph::new()) } else { Box::new(MTGraph::new()) };
+                for b in &order2 {
+                    g.add(blocks2[b - 1].take().unwrap());
+                }
+                let r = catch(|| g.run());
+                let _ = tx.send(match r {
+                    Ok(Ok(())) => ("ok", String::new()),
+                    Ok(Err(e)) => ("err", format!("{e}")),
+                    Err(p) => ("panic", p),
+                });
+            });
+            match rx.recv_timeout(std::time::Duration::from_secs(desc["wall_s"].as_u64().unwrap_or(60))) {
+                Ok((o, m)) => {
+                    (outcome, msg) = (o, m);
+                    (end, steps, exited) = ("done", 0, true);
+                }
+                Err(_) => {
+                    (outcome, msg) = ("hung", "run() did not return within the watchdog time".to_string());
+                    (end, steps, exited) = ("no_termination", 0, false);
+                }
             }
-            let r = catch(|| g.run());
-            (outcome, msg) = match r {
-                Ok(Ok(())) => ("ok", String::new()),
-                Ok(Err(e)) => ("err", format!("{e}")),
-                Err(p) => ("panic", p),
-            };
-            (end, steps, exited) = ("done", 0, true);
-        }
-        "mt" => {
-            let mut g = MTGraph::new();
-            for b in &order {
-                g.add(blocks[b - 1].take().unwrap());
-            }
-            let r = catch(|| g.run());
-            (outcome, msg) = match r {
-                Ok(Ok(())) => ("ok", String::new()),
-                Ok(Err(e)) => ("err", format!("{e}")),
-                Err(p) => ("panic", p),
-            };
-            (end, steps, exited) = ("done", 0, true);
         }
         _ => {
             let mut g = MTGraph::new();
